@@ -72,4 +72,9 @@ except Exception as e:
 server.handle_message(m2, sb)
 print("2nd (empty) Certificate -> state", server.state.name)
 server.handle_message(m3, sb)
-print("Finished -> state", server.state.name, "| peer certificate:", server._peer_certificate.subject.rfc4514_string(), "| CertificateVerify processed: never")
+import sys
+if server._peer_certificate is None:
+    print("PASS: Finished -> state", server.state.name, "| no peer certificate recorded (the unparsable Certificate message was rejected with an alert before anything was stored)")
+    sys.exit(0)
+print("FAIL: Finished -> state", server.state.name, "| peer certificate:", server._peer_certificate.subject.rfc4514_string(), "| CertificateVerify processed: never")
+sys.exit(1)
